@@ -28,6 +28,12 @@ def fold_consts(P, expr, fn, cls=None, locals_=()):
             v = unwrap(v)
             if isinstance(v, (int, str, bytes)) and not isinstance(v, bool) or isinstance(v, bool):
                 return ast.copy_location(ast.Constant(value=v), node)
+            if isinstance(v, (list, tuple)) and len(v) <= 32:
+                vs = [unwrap(x) for x in v]
+                if all(isinstance(x, (int, str, bytes, bool)) for x in vs):
+                    elts = [ast.Constant(value=x) for x in vs]
+                    lit = ast.List(elts=elts, ctx=ast.Load()) if isinstance(v, list) else ast.Tuple(elts=elts, ctx=ast.Load())
+                    return ast.copy_location(lit, node)
             return None
 
         def visit_Name(self, node):
